@@ -475,8 +475,88 @@ def probe_threads_async_facade(seed, cases=3):
     return fails
 
 
+def probe_copies_leave_originals_alone(seed, cases=30):
+    """Copies are other instances: (a) a copy of a machine whose triggers were bound onto its model
+    (`bind_events_to`, what `MachineMixin.bind_events_as_methods` does) is driven through the *copy's* model — the
+    original does not move; (b) classes declared in local scopes under one name (a factory returning one machine class
+    per configuration): a copy of an instance of the earlier class is an instance of *that* class, whatever was defined
+    since."""
+    import copy
+    import pickle
+    import random
+    import warnings
+    from statemachine import State, StateMachine
+    fails = []
+
+    def factory(tag, extra):
+        with warnings.catch_warnings():
+            warnings.simplefilter("ignore")
+            if extra:
+                class Workflow(StateMachine):
+                    draft = State(initial=True)
+                    review = State()
+                    done = State(final=True)
+                    submit = draft.to(review)
+                    approve = review.to(done)
+
+                    def on_submit(self):
+                        return tag
+            else:
+                class Workflow(StateMachine):
+                    draft = State(initial=True)
+                    published = State(final=True)
+                    submit = draft.to(published)
+
+                    def on_submit(self):
+                        return tag
+        return Workflow
+    for k in range(cases):
+        rng = random.Random(f"{seed}:copies-alone:{k}")
+        how = rng.choice(["deepcopy", "deepcopy-model", "copy-module-level-pickle"])
+        try:
+            if rng.random() < 0.5:
+                # (a)
+                W = factory("a", True)
+                m = type("Mdl", (), {})()
+                sm = W(m)
+                sm.bind_events_to(m)
+                if how == "deepcopy-model":
+                    m2 = copy.deepcopy(m)
+                else:
+                    sm2 = copy.deepcopy(sm)
+                    m2 = sm2.model
+                r = m2.submit()
+                moved = (sm.current_state.id, getattr(m, "state", None), getattr(m2, "state", None))
+                if moved[:2] != ("draft", "draft") or moved[2] != "review" or r != "a":
+                    fails.append(f"case {k}: triggers bound onto the model, {how}, `submit` called on the copy's model: "
+                                 f"original machine in {moved[0]!r}, original model {moved[1]!r}, copy's model {moved[2]!r}, "
+                                 f"result {r!r}; expected the copy alone to move")
+            else:
+                # (b)
+                first = factory("first", True)
+                inst = first()
+                later = factory("later", False)          # same __name__, same module, another machine
+                later()
+                c = copy.deepcopy(inst)
+                if type(c) is not first or [s.id for s in c.states] != ["draft", "review", "done"]:
+                    fails.append(f"case {k}: a deep copy of an instance of the first of two same-named local classes is a "
+                                 f"{type(c).__qualname__} with states {[s.id for s in c.states]}")
+                    continue
+                r = c.submit()
+                if r != "first" or c.current_state.id != "review" or inst.current_state.id != "draft":
+                    fails.append(f"case {k}: the copy answered {r!r} and is in {c.current_state.id!r}, the original in "
+                                 f"{inst.current_state.id!r}")
+        except Exception as e:  # noqa: BLE001
+            fails.append(f"case {k} ({how}): {type(e).__name__}: {e}")
+    return fails
+
+
 def run(ctx):
     lean_obligations(ctx)
+    cf = safe_probe(probe_copies_leave_originals_alone, ctx.seed)
+    ctx.coverage["copies_leave_originals_alone_cases"] = 30
+    if cf:
+        ctx.violation(ctx.write_replay("copies_leave_originals_alone.txt", "\n".join(cf[:10]) + "\n"), cf[0][:200])
     tf = safe_probe(probe_threads_async_facade, ctx.seed)
     ctx.coverage["threads_async_facade_cases"] = 3
     if tf:
